@@ -149,9 +149,13 @@ def work(item):
             bb = dict(b)
             bb['elements'] = {z: b['elements'][z] for z in sub}
             bb['function_types'] = compose._whole_basis_types(bb)
-        for fmt in writers.get_writer_formats():
+        # one dictionary object goes through all the writers, in an order of its own: a writer that edits what it was given spoils
+        # what the later ones write, and each text is judged against the dictionary as it was before the first of them
+        b_before = copy.deepcopy(bb)
+        order = list(writers.get_writer_formats())
+        rng.shuffle(order)
+        for fmt in order:
             rec = dict(fmt=fmt, subset=sub, bad=[])
-            b_before = copy.deepcopy(bb)
             try:
                 t = writers.write_formatted_basis_str(bb, fmt)
             except Exception as e:
@@ -193,6 +197,10 @@ def run(ctx):
         if i % 3 == 1:
             # the role is free text for most writers but steers some (Q-Chem: $basis / $aux_basis); an ECP next to a fitting role is legal
             g['role'] = ctx.rng.choice(['jkfit', 'rifit', 'guess', 'admmfit'])
+        if i % 10 == 7:
+            # the two elements whose symbols have three letters (Uue, Ubn), at the end so that the elements stay in increasing order
+            n_ = len(g['elements'])
+            g['elements'] = {('120' if k == n_ - 1 and n_ > 1 else '119' if k == max(n_ - 2, 0) else z): el for k, (z, el) in enumerate(g['elements'].items())}
         items.append(('gen%d' % i, g, 'g%d' % i))
     reqs, meta = [], []
     B = 450
